@@ -27,3 +27,6 @@ Proof. vm_compute. reflexivity. Qed.
 
 Lemma slot_discipline : slot_discipline_b = true.
 Proof. vm_compute. reflexivity. Qed.
+
+Lemma errored_path_clean : errored_path_clean_b = true.
+Proof. vm_compute. reflexivity. Qed.
